@@ -1,4 +1,5 @@
 import TcheranVerif.Proofs.MagicCert
+import TcheranVerif.Proofs.Sweep.S01  -- only to bound how many parts are checked at once (≈8 GB each)
 /-! C07 sweep, part 5: rook squares [3, 4] — decided by the kernel alone -/
 namespace Tcheran.Sweep
 
